@@ -43,6 +43,9 @@ var actions = []string{"get", "info", "put", "activate", "delete"}
 
 func genRules(rng *rand.Rand) []refmodel.Rule {
 	n := rng.IntN(4)
+	if rng.IntN(4) == 0 {
+		n = 3 + rng.IntN(3) // a peer covered by several grants
+	}
 	var rules []refmodel.Rule
 	for i := 0; i < n; i++ {
 		var ru refmodel.Rule
@@ -55,8 +58,11 @@ func genRules(rng *rand.Rand) []refmodel.Rule {
 			ru.Actions = append(ru.Actions, []string{"list", "*", "GET", "get ", "deleteversion"}[rng.IntN(5)])
 		}
 		np := 1 + rng.IntN(2)
-		if rng.IntN(6) == 0 {
+		switch rng.IntN(6) {
+		case 0:
 			np = 0 // a grant that lists actions but no pattern (a policy typo): it grants nothing
+		case 1:
+			np = 3 + rng.IntN(5) // a long list of patterns (3..7)
 		}
 		for j := 0; j < np; j++ {
 			ru.Patterns = append(ru.Patterns, patterns[rng.IntN(len(patterns))])
